@@ -4,7 +4,11 @@
 //! buffer) at quiescence after every repetition.
 //!
 //!   alloc_probe <shape> <order> <threads> <reps> <seed> [own|handoff]
-//! output:  B <baseline pages> / R <rep> <pages> <failed calls> / S <peak live bytes> <bytes churned> <calls>
+//!   alloc_probe steady <chunk> <mix> <policy> <primer> <delta> <threads> <reps> <seed>
+//!       bounded live set replaced object by object (see workload.rs); VmSize sampled with the live set full
+//!       (thread 0 samples while the other threads keep running) and after every repetition
+//! output:  B <baseline pages> / R <index> <pages> <failed calls> / S <peak live bytes> <bytes churned> <calls>
+//! The workload is bracketed by sysmon BEGIN/END markers (scenario 4) so that a tracer can arm injections.
 #![no_std]
 #![no_main]
 extern crate alloc;
@@ -16,6 +20,88 @@ use rusl::unix_lit;
 
 mod workload;
 use workload::*;
+#[path = "/verif/engines/sysmon/marker.rs"]
+mod marker;
+
+static SAMPLE_IX: core::sync::atomic::AtomicU64 = core::sync::atomic::AtomicU64::new(0);
+fn print_sample(failed: usize) {
+    let ix = SAMPLE_IX.fetch_add(1, core::sync::atomic::Ordering::Relaxed);
+    tiny_std::println!("R {} {} {}", ix, vmsize_pages(), failed);
+}
+
+fn steady_main(baseline: u64, args: &mut dyn Iterator<Item = &'static str>) -> i32 {
+    let chunk = parse(args.next()) as usize;
+    let mix = parse(args.next()) as u8;
+    let policy = order_by_name(args.next().unwrap_or("fifo"));
+    let primer_s = args.next().unwrap_or("none");
+    let primer = STEADY_PRIMERS.iter().position(|p| *p == primer_s);
+    let delta_s = args.next().unwrap_or("0");
+    let delta: isize = delta_s.parse().unwrap_or(0);
+    let threads = parse(args.next()).max(1) as usize;
+    let reps = parse(args.next()).max(1);
+    let seed = parse(args.next());
+    let (Some(policy), Some(primer)) = (policy, primer) else {
+        tiny_std::println!("E bad arguments");
+        return 2;
+    };
+    if chunk < 32 || chunk % 16 != 0 {
+        tiny_std::println!("E bad chunk");
+        return 2;
+    }
+    let p = Steady { chunk, mix, policy, primer: primer as u8, delta, live: steady_live(chunk), steps: steady_steps(chunk) };
+    tiny_std::println!("B {}", baseline);
+    marker::begin(4, 1, 0);
+    let mut total = RepStats::default();
+    for rep in 0..reps {
+        let mut st = RepStats::default();
+        if threads == 1 {
+            let mut g = Global;
+            let mut slots: Vec<Slot> = Vec::with_capacity(p.live);
+            unsafe { steady_rep(&mut g, &p, seed ^ rep, &mut slots, &mut st, &mut |_| print_sample(0)) };
+        } else {
+            let mut handles = Vec::with_capacity(threads);
+            for t in 0..threads {
+                let h = tiny_std::thread::spawn(move || {
+                    let mut g = Global;
+                    let mut st = RepStats::default();
+                    let mut slots: Vec<Slot> = Vec::with_capacity(p.live);
+                    let s = seed ^ rep ^ ((t as u64) << 32);
+                    unsafe {
+                        if t == 0 {
+                            steady_rep(&mut g, &p, s, &mut slots, &mut st, &mut |_| print_sample(0));
+                        } else {
+                            steady_rep(&mut g, &p, s, &mut slots, &mut st, &mut |_| {});
+                        }
+                    }
+                    st
+                });
+                match h {
+                    Ok(h) => handles.push(h),
+                    Err(_) => st.failed += 1,
+                }
+            }
+            for h in handles {
+                match h.join() {
+                    Some(s) => {
+                        st.peak_live += s.peak_live;
+                        st.churned += s.churned;
+                        st.calls += s.calls;
+                        st.failed += s.failed;
+                    }
+                    None => st.failed += 1,
+                }
+            }
+        }
+        total.peak_live = total.peak_live.max(st.peak_live);
+        total.churned += st.churned;
+        total.calls += st.calls;
+        total.failed += st.failed;
+        print_sample(st.failed);
+    }
+    marker::end(4, 1, 0, 0, 0);
+    tiny_std::println!("S {} {} {}", total.peak_live, total.churned, total.calls);
+    0
+}
 
 struct Global;
 impl Heap for Global {
@@ -64,6 +150,9 @@ pub fn main() -> i32 {
     let baseline = vmsize_pages();
     let mut args = tiny_std::env::args().skip(1).map(|a| a.unwrap_or(""));
     let shape_s = args.next().unwrap_or("small");
+    if shape_s == "steady" {
+        return steady_main(baseline, &mut args);
+    }
     let order_s = args.next().unwrap_or("lifo");
     let threads = parse(args.next()).max(1) as usize;
     let reps = parse(args.next()).max(1);
@@ -74,6 +163,7 @@ pub fn main() -> i32 {
         return 2;
     };
     tiny_std::println!("B {}", baseline);
+    marker::begin(4, 0, 0);
     let mut total = RepStats::default();
     let mut g = Global;
     for rep in 0..reps {
@@ -133,6 +223,7 @@ pub fn main() -> i32 {
         // quiescent: every block of this repetition is freed, every thread joined
         tiny_std::println!("R {} {} {}", rep, vmsize_pages(), st.failed);
     }
+    marker::end(4, 0, 0, 0, 0);
     tiny_std::println!("S {} {} {}", total.peak_live, total.churned, total.calls);
     0
 }
